@@ -1,10 +1,10 @@
 (* Extraction of the state-file models (C13, C14). ExtrOcamlBasic only; N, positive, nat,
    ascii and string stay inductive. No Extract Constant. *)
 From Coq Require Import NArith List String.
-From SG Require Import State.Fs State.AtomicWrite State.Concurrency.
+From SG Require Import State.Fs State.AtomicWrite State.Concurrency State.LockWait.
 Require Extraction. Require Import ExtrOcamlBasic.
 Extraction Language OCaml.
-Extraction "../ocaml/gen/state_ex.ml" points crash target temp_of load_kind ser parse
+Extraction "../ocaml/gen/state_ex.ml" points crash crash_from after_crashes fs_init total_wait lock_poll_interval_ms target temp_of load_kind ser parse
   init_sys step exec event final_target finished
-  cmd_snapshot cmd_snapshot_unlocked cmd_stats_history cmd_update_baseline cmd_check_baseline cmd_check_cache
+  cmd_snapshot cmd_snapshot_unlocked cmd_auto_snapshot cmd_stats_history cmd_update_baseline cmd_check_baseline cmd_check_cache
   names data read_name.
